@@ -20,6 +20,8 @@ import (
 
 	"github.com/miekg/dns"
 
+	"github.com/semihalev/sdns/middleware"
+	"github.com/semihalev/sdns/middleware/cache"
 	"github.com/semihalev/sdns/server"
 	"github.com/semihalev/sdns/zzverif/stack"
 	"github.com/semihalev/sdns/zzverif/vlib"
@@ -33,6 +35,10 @@ type roundSpec struct {
 	// operator's GOMEMLIMIT does), which lowers the UDP slab cap to ~130 and
 	// the socket fan-out to 4, so shedding and slab reuse are reachable.
 	Tight    bool `json:"tight"`
+	// DNSSEC runs the stack with local validation "on": what admits the stub's
+	// validated NXDOMAIN into the cache's subtree-cut index (RFC 8020 rung) and
+	// makes the cached-failure rung depend on its denial-miss witness.
+	DNSSEC   bool `json:"dnssec"`
 	Workers  int  `json:"ingress_workers"`
 	Queue    int  `json:"ingress_queue"`
 	TCPConns int  `json:"ingress_tcp_conns"`
@@ -122,10 +128,30 @@ func (env *roundEnv) stub(_ context.Context, req *stack.StubRequest) *stack.Stub
 		return &stack.StubReply{Panic: "c10 scripted panic"}
 	case "d":
 		return &stack.StubReply{Drop: true}
+	case "f":
+		// the upstream fails: an empty SERVFAIL with the request's own OPT, which
+		// the cache files in its RFC 9520 failure state
+		return &stack.StubReply{Rcode: dns.RcodeServerFailure}
 	}
 	m := new(dns.Msg)
 	m.Answer = answerFor(name, req.Q.Qtype, req.Q.Qclass)
 	h := qhash(name, req.Q.Qtype, req.Q.Qclass)
+	rep := &stack.StubReply{Msg: m}
+	switch {
+	case kind == "x" && req.Q.Qclass == dns.ClassINET:
+		// what the resolver hands down after validating a denial: NXDOMAIN for
+		// the cut "x?.c10.test." (the name the authority denied), AD set, the
+		// proof in the authority section, provenance attached
+		cut := nxCutOf(name)
+		m.Rcode = dns.RcodeNameError
+		m.AuthenticatedData = true
+		m.Ns = nxAuthority(cut)
+		rep.Negative = &middleware.ValidatedNegativeProof{Subject: cut, Zone: nxZone,
+			Kind: middleware.ValidatedNegativeProofNSEC, Aggressive: true}
+	case kind == "e":
+		code, text := edeFor(name, req.Q.Qtype, req.Q.Qclass)
+		rep.EDE = &dns.EDNS0_EDE{InfoCode: code, ExtraText: text}
+	}
 	switch h[7] % 3 {
 	case 0:
 		if req.OPT != nil {
@@ -138,7 +164,6 @@ func (env *roundEnv) stub(_ context.Context, req *stack.StubRequest) *stack.Stub
 			}
 		}
 	}
-	rep := &stack.StubReply{Msg: m}
 	switch kind {
 	case "s":
 		rep.Gate = *env.slowGate.Load()
@@ -200,6 +225,11 @@ func runRound(r *vlib.Run, rs *roundSpec) {
 	cfg.NSID = serverNSID
 	cfg.CookieSecret = "c10-cookie-secret"
 	cfg.AccessList = []string{"127.0.0.0/9", "127.128.0.0/10"} // 127.192.0.0/10 is denied
+	on := true
+	cfg.RFC9520 = &on // the failure cache is what the cached-failure rungs serve from
+	if rs.DNSSEC {
+		cfg.DNSSEC = "on"
+	}
 	env := &roundEnv{r: r, name: name, spec: rs, qtmo: cfg.QueryTimeout.Duration, stop: make(chan struct{})}
 	first := make(chan struct{})
 	env.slowGate.Store(&first)
@@ -231,6 +261,7 @@ func runRound(r *vlib.Run, rs *roundSpec) {
 
 	stats0 := server.VerifC10Stats(st.Server)
 	c0 := st.Counters()
+	w0 := cache.VerifC05WireCounters()
 	r.Note("engine_"+name, stats0)
 	if rs.Tight {
 		r.Max("tight_udp_slab_cap", stats0.UDPSlabCap)
@@ -262,6 +293,16 @@ func runRound(r *vlib.Run, rs *roundSpec) {
 		if !s.denied {
 			open = append(open, s.idx)
 		}
+	}
+	// the round's shared failing names
+	var failNonces []string
+	for i := 0; i < 3+rs.Groups/12; i++ {
+		n := newNonce(grng)
+		registry.addNonce(n, fmt.Sprintf("shared failing name %d of round %s", i, name))
+		failNonces = append(failNonces, n)
+	}
+	for _, s := range specs {
+		s.failNonces = failNonces
 	}
 	for g := 0; g < rs.Groups && len(open) >= 3; g++ {
 		gs := &groupState{gate: make(chan struct{})}
@@ -396,6 +437,14 @@ func runRound(r *vlib.Run, rs *roundSpec) {
 			r.Count("engine_"+k, int(d))
 			if rs.PortableAfter > 0 {
 				r.Count("portable_engine_"+k, int(d))
+			}
+		}
+	}
+	for k, v := range cache.VerifC05WireCounters() {
+		if d := v - w0[k]; d != 0 {
+			r.Count("cache_wire_"+k, int(d))
+			if rs.DNSSEC {
+				r.Count("cache_wire_dnssec_on_"+k, int(d))
 			}
 		}
 	}
